@@ -393,6 +393,7 @@ func runQuantile(r *mc.Run) {
 	r.SetExtra("largest_seat_count_error_outside_tolerance", so)
 	tailExtras(r, tcells)
 	// monotone in the hash
+	c99 := hashOf(bf().SetFloat64(f099))
 	for _, pr := range pairs {
 		prev := -1
 		for k := range pr.hs {
@@ -401,6 +402,9 @@ func runQuantile(r *mc.Run) {
 			}
 			if prev >= 0 {
 				r.Count("monotonicity_comparisons", 1)
+				if pr.hs[prev].Cmp(c99) > 0 {
+					r.Count("upper_tail_monotonicity_comparisons", 1)
+				}
 				if pr.js[k] < pr.js[prev] {
 					report(r, mc.Violation{
 						Sig:    fmt.Sprintf("choose is not monotone in the hash (%s, %s -> %s)", pclass(pr.PS.P), branchOf(pr.hs[prev], pr.W, pr.PS.P), branchOf(pr.hs[k], pr.W, pr.PS.P)),
